@@ -86,6 +86,18 @@ CHECKS = {
         "QueryEscape and header canonicalisation are the transport between client_request and parse_request: checked by the run and the "
         "independent validator, not by the theorem. Domain restrictions as the property states (DESIGN section 11).",
    ref="DESIGN.md section 4 (C09)"),
+ "C10": dict(
+   technique="Coq proof that the client's decoding (status switch, header parsing, body decoding) of what the response's Write method emits returns the same response kind and value, and that an undocumented status reaches the default response or an error + differential run of reflectively built response values through the generated API and client, and of stubbed undocumented status codes",
+   text="C10_roundtrip: for every operation's documented response list (distinct codes, at most one default, header names distinct and not "
+        "Content-Type), every documented response and every value of its type in the domain, write produces a wire response and client_decode "
+        "of it is Ok (same index, same value). C10_undocumented: an undocumented status is decoded with the default plan if any, else an error. "
+        "C10_never_wrong_kind: the kind returned is the one documented for the status seen, or the default when the status is documented "
+        "nowhere. Tie: handlers return seeded response values (inline, shared component, alias, component default; 0-3 typed headers; JSON and "
+        "raw bodies); the generated client's result (dynamic type and dumped value) is compared with the sent value and the extracted model; "
+        "the recorded wire response with the model's write; a stub transport replays 12 undocumented status codes x 5 bodies.",
+   note="Float/time formatting and parsing are oracle hypotheses. JSON text printing/parsing is the transport (canonical JSON comparison). "
+        "Header values are compared as http.Header delivers them in-process (no wire-level whitespace trimming: LocalClient transport).",
+   ref="DESIGN.md section 4 (C10)"),
  "C11": dict(
    technique="Coq proof over the model of NewRouter/authMiddlewareOr (soundness+completeness of the auth loop w.r.t. the operation's effective requirement) + enumeration of all small security configurations against the compiled package",
    text="C11_auth_sound/complete: for every spec the generator accepts, every API configuration and request, the authenticator loop emitted for an "
